@@ -124,7 +124,7 @@ def val(d):
     return float(np.asarray(d).ravel()[0])
 
 
-class VComp(fm.TimeComponent):
+class VBase:
     """time-stepped harness component; publishes its own time (hours) on every output"""
 
     def __init__(self, name, menu, fixed=None, ins=(), outs=(), start=0, pull_initial=True, finish_at=None):
@@ -204,6 +204,23 @@ class VComp(fm.TimeComponent):
 
     def _finalize(self):
         self._life("finalize")
+
+
+class VComp(VBase, fm.TimeComponent):
+    """the usual case: derived from the sdk's TimeComponent"""
+
+
+class IVComp(VBase, fm.ITimeComponent, fm.Component):
+    """a component with its own clock: implements the ITimeComponent interface directly (allowed by the documentation),
+    it is NOT an instance of the sdk's TimeComponent"""
+
+    @property
+    def time(self):
+        return self._time
+
+    @property
+    def next_time(self):
+        return self._next_time()
 
 
 class PComp(fm.Component):
@@ -348,7 +365,7 @@ class Run:
         self.comps = {}
         for c in cfg["comps"]:
             if c["kind"] == "T":
-                self.comps[c["name"]] = VComp(c["name"], c.get("menu", [1]), c.get("fixed"), c.get("ins", ()), c.get("outs", ()), c.get("start", 0), c.get("pull_initial", True), c.get("finish_at"))
+                self.comps[c["name"]] = (IVComp if c.get("own_clock") else VComp)(c["name"], c.get("menu", [1]), c.get("fixed"), c.get("ins", ()), c.get("outs", ()), c.get("start", 0), c.get("pull_initial", True), c.get("finish_at"))
             else:
                 self.comps[c["name"]] = PComp(c["name"], c.get("ins", ()), c.get("outs", ()), slot_time=self.t_start)
         self.links = [Shared(l) for l in cfg["links"]]
@@ -383,11 +400,11 @@ class Run:
             src = self.comps[l["src"]]
             key = (l["src"], l["so"])
             if key not in self.sources:
-                if isinstance(src, VComp):
+                if isinstance(src, VBase):
                     self.sources[key] = R.RefSource()
                 else:
                     self.sources[key] = RefP(self, l["src"], l["so"])
-            init = Fr(src.start) if isinstance(src, VComp) else Fr(self.t_start)
+            init = Fr(src.start) if isinstance(src, VBase) else Fr(self.t_start)
             full = [tuple(t) for t in (cfg["trunks"][l["trunk"]] if l.get("trunk") else [])] + [tuple(t) for t in l["chain"]]
             self.ref[li] = R.RefLink(self.sources[key], full, init)
             self.in_links[l["dst"]].append(li)
@@ -492,7 +509,7 @@ class Run:
             if req is None:
                 continue
             src = self.comps[l["src"]]
-            if isinstance(src, VComp):
+            if isinstance(src, VBase):
                 ot = hrs(src.outputs[l["so"]].time)
                 if ot is None or ot < req:
                     res.append(l["src"])
@@ -505,7 +522,7 @@ class Run:
         self.stats["updates"] += 1
         if self.updates > self.cap:
             raise Hang()
-        tcs = {n: c for n, c in self.comps.items() if isinstance(c, VComp)}
+        tcs = {n: c for n, c in self.comps.items() if isinstance(c, VBase)}
         times = {n: hrs(c._time) for n, c in tcs.items()}
         t_next = hrs(nt)
         desc = lambda: f"update of {U.name} {float(times[U.name])}->{float(t_next)} at times { {n: float(t) for n, t in times.items()} } pending { {n: c.pending for n, c in tcs.items()} }"  # noqa
@@ -598,11 +615,11 @@ class Run:
     def link_floor(self, li):
         """lower bound of all future pull times on link li (None = unknown)"""
         l = self.links[li]
-        if isinstance(self.comps[l["dst"]], VComp):
+        if isinstance(self.comps[l["dst"]], VBase):
             return self.last_pull.get(li)
         if self.has_dtp or li not in self.last_pull:
             return None
-        return min(hrs(c._time) for c in self.comps.values() if isinstance(c, VComp)) - self.dmax
+        return min(hrs(c._time) for c in self.comps.values() if isinstance(c, VBase)) - self.dmax
 
     def prune(self, li):
         """bounded reference history: forget what no future request can select (argued in DESIGN.md, engine A)"""
@@ -641,7 +658,7 @@ class Run:
     def check_terminal(self):
         end = Fr(self.end)
         for n, c in self.comps.items():
-            if isinstance(c, VComp):
+            if isinstance(c, VBase):
                 if hrs(c._time) < end and not c.declared_finished:
                     self.v("C03.end_not_reached", dict(kind="end_not_reached"), f"{n} at {float(hrs(c._time))} < end {self.end}")
             if c.life != "finalized":
@@ -713,7 +730,7 @@ def signature(cfg):
         o = ("exc", out[1])
     else:
         o = (out[0],)
-    times = {n: float(hrs(c._time)) for n, c in r.comps.items() if isinstance(c, VComp)}
+    times = {n: float(hrs(c._time)) for n, c in r.comps.items() if isinstance(c, VBase)}
     sig = dict(outcome=o, infos=infos, times=times if o == ("done",) else None, series={k: v for k, v in sorted(r.series.items())} if o == ("done",) else None)
     return sig, r
 
